@@ -60,8 +60,9 @@ pub fn run(env: &Env) {
                                 env.ctx.step();
                                 check(&format!("plain proof D={:?} -> native proof_verify", d), "proof", true, zk.proof_verify(&k.pk, &p, h, ph, Some(&dm), Some(&d)));
                                 check(&format!("plain proof D={:?} -> other suite proof_verify", d), "proof", false, zo.proof_verify(&k.pk, &p, h, ph, Some(&dm), Some(&d)));
-                                for (zn, zz) in [("same suite", zk), ("other suite", zo)] { for lv in [l, l.saturating_sub(1), 0] {
-                                    check(&format!("plain proof D={:?} -> {} blind_proof_verify(L={})", d, zn, lv), "proof", false, zz.blind_proof_verify(&k.pk, &p, h, ph, Some(lv), Some(&dm), None, Some(&d), None));
+                                for (zn, zz) in [("same suite", zk), ("other suite", zo)] { for lv in [Some(l), Some(l.saturating_sub(1)), Some(0), None] {
+                                    check(&format!("plain proof D={:?} -> {} blind_proof_verify(L={:?})", d, zn, lv), "proof", false, zz.blind_proof_verify(&k.pk, &p, h, ph, lv, Some(&dm), None, Some(&d), None));
+                                    check(&format!("plain proof D={:?} -> {} blind_proof_verify(L={:?}, committed lists Some(empty))", d, zn, lv), "proof", false, zz.blind_proof_verify(&k.pk, &p, h, ph, lv, Some(&dm), Some(&[]), Some(&d), Some(&[])));
                                 } }
                             }
                         }
@@ -141,7 +142,14 @@ pub fn run(env: &Env) {
                 let g1 = refbbs::g1_bytes(&refbbs::g1_generator());
                 let mut identity = [0u8; 48]; identity[0] = 0xc0;
                 let mut lists: Vec<(String, Vec<u8>, Vec<[u8; 48]>)> = Vec::new();
-                for s in suites() { for (an, api) in api_ids(s, seed) { if let O::Ok(g) = z(s).generators(nmax, api.as_deref()) { env.ctx.step(); lists.push((format!("{}/{}", s.name(), an), [s.name().as_bytes(), b"/", api.as_deref().unwrap_or(b"")].concat(), g)); } } }
+                let long_ids = |seed: u64| -> Vec<(String, Option<Vec<u8>>)> {
+                    // api_ids longer than what fits a 255-octet tag (the expander hashes oversize tags): pairs that share a long prefix
+                    let base = mccore::fill(seed, "api-long", 300);
+                    let mut v = Vec::new();
+                    for (nm, len, last) in [("237B", 237usize, 0u8), ("238B-a", 238, 1), ("238B-b", 238, 2), ("300B-a", 300, 1), ("300B-b", 300, 2), ("236B", 236, 0)] { let mut x = base[..len].to_vec(); if last > 0 { let n = x.len(); x[n - 1] = last; } v.push((nm.to_string(), Some(x))); }
+                    v
+                };
+                for s in suites() { for (an, api, nmax) in api_ids(s, seed).into_iter().map(|(a, b)| (a, b, nmax)).chain(long_ids(seed).into_iter().map(|(a, b)| (a, b, 8usize))) { if let O::Ok(g) = z(s).generators(nmax, api.as_deref()) { env.ctx.step(); lists.push((format!("{}/{}", s.name(), an), [s.name().as_bytes(), b"/", api.as_deref().unwrap_or(b"")].concat(), g)); } } }
                 for (name, real_id, g) in &lists {
                     env.ctx.state(&[b"sets", name.as_bytes()]);
                     let p1 = if name.starts_with("sha256") { z(Suite::Sha256).p1() } else { z(Suite::Shake256).p1() };
